@@ -834,6 +834,28 @@ func (p *pkg) gatewayFacts() {
 	}
 	emit("def requestMwEveryCall : Bool := %s", leanBool(reqMw))
 
+	// the execution context of a request: a fresh value per Execute call, holding that request's own variables
+	ctxFresh := false
+	if ex != nil {
+		for _, st := range ex.Body.List {
+			if p.norm(st) == "executionContext:=&ExecutionContext{logger:g.logger,RequestContext:ctx.Context,RequestMiddlewares:g.requestMiddlewares,Plan:plan,Variables:ctx.Variables,}" {
+				ctxFresh = true
+			}
+		}
+		// and nothing else in Execute assigns to it or to its fields
+		ast.Inspect(ex.Body, func(n ast.Node) bool {
+			if as, ok := n.(*ast.AssignStmt); ok {
+				for _, l := range as.Lhs {
+					if t := p.norm(l); as.Tok != token.DEFINE && (t == "executionContext" || strings.HasPrefix(t, "executionContext.")) {
+						ctxFresh = false
+					}
+				}
+			}
+			return true
+		})
+	}
+	emit("def execContextFresh : Bool := %s", leanBool(ctxFresh))
+
 	// variables forwarded with a step: only the step's own set, client values unchanged, plus the join id
 	varsOK := false
 	if eo := p.funcs["executeOneStep"]; eo != nil {
